@@ -488,12 +488,14 @@ class FixedWidthBinning(BinningBase):
         self._bin_width = float(bin_width)
         self._align = align
         self._bin_count = int(bin_count)
+        # Python floats: a float32 / float16 scalar would drag the edge arithmetic down to its precision
         if min is not None:
+            min = float(min)
             self._times_min = int(np.floor(min / self.bin_width))
             self._shift = min - self._times_min * self.bin_width
         else:
             self._times_min = bin_times_min
-            self._shift = bin_shift or 0.0
+            self._shift = float(bin_shift or 0.0)
         self._bins = None
         self._numpy_bins = None
 
